@@ -1,0 +1,208 @@
+//! Lossless, self-describing byte encoding of a [`Tuple`].
+//!
+//! The typed Arrow columns used for batch files and the JSON lines used for the WAL cannot
+//! represent every tuple the engine accepts: a schema-less relation may mix value kinds within a
+//! column, `Null` and `Timestamp` columns do not round-trip through the inferred Arrow schema, and
+//! JSON has no representation for non-finite floats. Whenever the primary encoding does not
+//! reproduce the tuple exactly, the persist layer falls back to this encoding, which preserves
+//! every value kind and every bit of its payload.
+//!
+//! Layout: `u32` arity, then per value a one-byte tag followed by a little-endian payload.
+
+use crate::value::{Tuple, Value};
+use std::sync::Arc;
+
+const TAG_INT32: u8 = 0;
+const TAG_INT64: u8 = 1;
+const TAG_FLOAT64: u8 = 2;
+const TAG_STRING: u8 = 3;
+const TAG_BOOL: u8 = 4;
+const TAG_NULL: u8 = 5;
+const TAG_VECTOR: u8 = 6;
+const TAG_VECTOR_INT8: u8 = 7;
+const TAG_TIMESTAMP: u8 = 8;
+
+/// Encode a tuple so that [`decode_tuple`] returns exactly the same values and value kinds.
+pub fn encode_tuple(tuple: &Tuple) -> Vec<u8> {
+    let mut out = Vec::with_capacity(4 + tuple.arity() * 9);
+    out.extend_from_slice(&(tuple.arity() as u32).to_le_bytes());
+    for value in tuple.values() {
+        match value {
+            Value::Int32(v) => {
+                out.push(TAG_INT32);
+                out.extend_from_slice(&v.to_le_bytes());
+            }
+            Value::Int64(v) => {
+                out.push(TAG_INT64);
+                out.extend_from_slice(&v.to_le_bytes());
+            }
+            Value::Float64(v) => {
+                out.push(TAG_FLOAT64);
+                out.extend_from_slice(&v.to_bits().to_le_bytes());
+            }
+            Value::String(s) => {
+                out.push(TAG_STRING);
+                out.extend_from_slice(&(s.len() as u32).to_le_bytes());
+                out.extend_from_slice(s.as_bytes());
+            }
+            Value::Bool(b) => {
+                out.push(TAG_BOOL);
+                out.push(u8::from(*b));
+            }
+            Value::Null => out.push(TAG_NULL),
+            Value::Vector(v) => {
+                out.push(TAG_VECTOR);
+                out.extend_from_slice(&(v.len() as u32).to_le_bytes());
+                for f in v.iter() {
+                    out.extend_from_slice(&f.to_bits().to_le_bytes());
+                }
+            }
+            Value::VectorInt8(v) => {
+                out.push(TAG_VECTOR_INT8);
+                out.extend_from_slice(&(v.len() as u32).to_le_bytes());
+                out.extend(v.iter().map(|i| *i as u8));
+            }
+            Value::Timestamp(t) => {
+                out.push(TAG_TIMESTAMP);
+                out.extend_from_slice(&t.to_le_bytes());
+            }
+        }
+    }
+    out
+}
+
+struct Reader<'a> {
+    bytes: &'a [u8],
+    pos: usize,
+}
+
+impl<'a> Reader<'a> {
+    fn take(&mut self, n: usize) -> Result<&'a [u8], String> {
+        let end = self
+            .pos
+            .checked_add(n)
+            .filter(|end| *end <= self.bytes.len())
+            .ok_or_else(|| "truncated tuple encoding".to_string())?;
+        let slice = &self.bytes[self.pos..end];
+        self.pos = end;
+        Ok(slice)
+    }
+
+    fn array<const N: usize>(&mut self) -> Result<[u8; N], String> {
+        let mut buf = [0u8; N];
+        buf.copy_from_slice(self.take(N)?);
+        Ok(buf)
+    }
+
+    fn len(&mut self) -> Result<usize, String> {
+        Ok(u32::from_le_bytes(self.array()?) as usize)
+    }
+}
+
+/// Decode a tuple produced by [`encode_tuple`].
+pub fn decode_tuple(bytes: &[u8]) -> Result<Tuple, String> {
+    let mut r = Reader { bytes, pos: 0 };
+    let arity = r.len()?;
+    let mut values = Vec::with_capacity(arity.min(1024));
+    for _ in 0..arity {
+        let tag = r.take(1)?[0];
+        let value = match tag {
+            TAG_INT32 => Value::Int32(i32::from_le_bytes(r.array()?)),
+            TAG_INT64 => Value::Int64(i64::from_le_bytes(r.array()?)),
+            TAG_FLOAT64 => Value::Float64(f64::from_bits(u64::from_le_bytes(r.array()?))),
+            TAG_STRING => {
+                let n = r.len()?;
+                let s = std::str::from_utf8(r.take(n)?)
+                    .map_err(|e| format!("invalid UTF-8 in tuple encoding: {e}"))?;
+                Value::String(Arc::from(s))
+            }
+            TAG_BOOL => Value::Bool(r.take(1)?[0] != 0),
+            TAG_NULL => Value::Null,
+            TAG_VECTOR => {
+                let n = r.len()?;
+                let mut v = Vec::with_capacity(n.min(1 << 16));
+                for _ in 0..n {
+                    v.push(f32::from_bits(u32::from_le_bytes(r.array()?)));
+                }
+                Value::Vector(Arc::new(v))
+            }
+            TAG_VECTOR_INT8 => {
+                let n = r.len()?;
+                Value::VectorInt8(Arc::new(r.take(n)?.iter().map(|b| *b as i8).collect()))
+            }
+            TAG_TIMESTAMP => Value::Timestamp(i64::from_le_bytes(r.array()?)),
+            other => return Err(format!("unknown value tag {other} in tuple encoding")),
+        };
+        values.push(value);
+    }
+    if r.pos != bytes.len() {
+        return Err("trailing bytes after tuple encoding".to_string());
+    }
+    Ok(Tuple::new(values))
+}
+
+/// Bit-exact comparison of two tuples (value kinds and payload bits, including vector elements).
+pub fn same_bits(a: &Tuple, b: &Tuple) -> bool {
+    encode_tuple(a) == encode_tuple(b)
+}
+
+/// Hex helpers for embedding the encoding in the line-oriented WAL.
+pub fn to_hex(bytes: &[u8]) -> String {
+    let mut s = String::with_capacity(bytes.len() * 2);
+    for b in bytes {
+        s.push_str(&format!("{b:02x}"));
+    }
+    s
+}
+
+/// Inverse of [`to_hex`].
+pub fn from_hex(s: &str) -> Result<Vec<u8>, String> {
+    if s.len() % 2 != 0 {
+        return Err("odd-length hex string".to_string());
+    }
+    (0..s.len())
+        .step_by(2)
+        .map(|i| {
+            s.get(i..i + 2)
+                .and_then(|p| u8::from_str_radix(p, 16).ok())
+                .ok_or_else(|| "invalid hex digit".to_string())
+        })
+        .collect()
+}
+
+#[cfg(test)]
+#[allow(clippy::unwrap_used)]
+mod tests {
+    use super::*;
+
+    #[test]
+    fn test_roundtrip_all_kinds() {
+        let t = Tuple::new(vec![
+            Value::Int32(i32::MIN),
+            Value::Int64(i64::MAX),
+            Value::Float64(-0.0),
+            Value::Float64(f64::from_bits(0x7ff8_0000_0000_0001)),
+            Value::Float64(f64::NEG_INFINITY),
+            Value::String(Arc::from("line\nbreak \"q\" \u{1F600}")),
+            Value::Bool(true),
+            Value::Null,
+            Value::Vector(Arc::new(vec![0.0, -0.0, f32::NAN])),
+            Value::Vector(Arc::new(vec![])),
+            Value::VectorInt8(Arc::new(vec![-128, 0, 127])),
+            Value::Timestamp(-5),
+        ]);
+        let back = decode_tuple(&encode_tuple(&t)).unwrap();
+        assert!(same_bits(&t, &back));
+        assert_eq!(back.arity(), t.arity());
+        assert!(matches!(back.get(11), Some(Value::Timestamp(-5))));
+        let hex = to_hex(&encode_tuple(&t));
+        assert_eq!(from_hex(&hex).unwrap(), encode_tuple(&t));
+    }
+
+    #[test]
+    fn test_decode_rejects_garbage() {
+        assert!(decode_tuple(&[1, 0, 0, 0, 99]).is_err());
+        assert!(decode_tuple(&[1, 0, 0, 0]).is_err());
+        assert!(from_hex("abc").is_err());
+    }
+}
